@@ -197,6 +197,11 @@ func (be *buildEnv) FetchSourcePackage(ctx context.Context, sourceType string, u
 		if mode == "error" {
 			return resp, fmt.Errorf("injected fetch failure #%d", n)
 		}
+	case "error-deadline":
+		// the fetcher's own timeout, while the caller's context is alive
+		return resp, fmt.Errorf("injected fetch failure #%d: %w", n, context.DeadlineExceeded)
+	case "error-canceled":
+		return resp, fmt.Errorf("injected fetch failure #%d: %w", n, context.Canceled)
 	}
 	if i < 0 {
 		return resp, fmt.Errorf("harness world has no package %s", key)
@@ -274,7 +279,7 @@ func (be *buildEnv) ModulePackageVersions(ctx context.Context, pkgAddr regaddr.M
 	if mode == "abort" {
 		return resp, fmt.Errorf("harness: callback budget exceeded")
 	}
-	if mode != "" {
+	if mode != "" && mode != "warning-if-finder" {
 		return resp, fmt.Errorf("injected registry versions failure #%d", n)
 	}
 	i := be.regIndex(pkgAddr)
@@ -299,7 +304,7 @@ func (be *buildEnv) ModulePackageSourceAddr(ctx context.Context, pkgAddr regaddr
 	if mode == "abort" {
 		return resp, fmt.Errorf("harness: callback budget exceeded")
 	}
-	if mode != "" {
+	if mode != "" && mode != "warning-if-finder" {
 		return resp, fmt.Errorf("injected registry source-address failure #%d", n)
 	}
 	i := be.regIndex(pkgAddr)
@@ -397,7 +402,7 @@ func (f *hFinder) FindDependencies(fsys fs.FS, subPath string, deps *sourcebundl
 	case "error", "partial-then-error", "error-diag":
 		diags = append(diags, hDiag{sev: sourcebundle.DiagError, summary: fmt.Sprintf("injected finder error #%d", n), detail: "detail of injected error", file: path.Join(subPath, "main.tf"), ctxFile: path.Join(subPath, "ctx.tf"), extra: n})
 		return diags
-	case "warning-diag":
+	case "warning-diag", "warning-if-finder":
 		diags = append(diags, hDiag{sev: sourcebundle.DiagWarning, summary: fmt.Sprintf("injected finder warning #%d", n), detail: "detail of injected warning", file: path.Join(subPath, "main.tf"), ctxFile: "", extra: fmt.Sprintf("extra-%d", n)})
 		diags = append(diags, hDiag{sev: sourcebundle.DiagWarning, summary: fmt.Sprintf("context-only warning #%d", n), detail: "has a context range but no subject", file: "", ctxFile: path.Join(subPath, "only-ctx.tf")})
 	}
